@@ -112,7 +112,7 @@ fn make_endpoint(chain: &[Version], e: &EpSpec, resp: usize, tags: &[String]) ->
     ep
 }
 
-fn build(c: &Case, chain: &[Version], order: &[usize]) -> Result<ApiDescription<()>, String> {
+fn build(c: &Case, chain: &[Version], order: &[usize], interleave: bool) -> Result<ApiDescription<()>, String> {
     let (eps, resp) = (&c.eps, &c.resp);
     catch(|| {
         let mut api = ApiDescription::new();
@@ -124,9 +124,18 @@ fn build(c: &Case, chain: &[Version], order: &[usize]) -> Result<ApiDescription<
             });
         }
         let none = vec![];
-        for &i in order {
+        for (k, &i) in order.iter().enumerate() {
             let tags = c.ep_tags.get(i).unwrap_or(&none);
             api.register(make_endpoint(chain, &eps[i], resp[i], tags)).map_err(|e| e.to_string()).unwrap();
+            // a history: documents are also generated BETWEEN registrations (for
+            // every version, and thrown away) — what is generated afterwards
+            // must still describe the whole table
+            if interleave && (k % 2 == 0 || k + 2 >= order.len()) {
+                for v in chain {
+                    let mut sink = vec![];
+                    let _ = api.openapi("early", v.clone()).write(&mut sink);
+                }
+            }
         }
         api
     })
@@ -320,8 +329,9 @@ fn exec(c: &Case) -> Option<Line> {
     let chain: Vec<Version> = c.chain.iter().map(|s| Version::parse(s).unwrap()).collect();
     install_slots(&c.slots);
     let order1: Vec<usize> = (0..c.eps.len()).collect();
-    let api1 = build(c, &chain, &order1).ok()?;
-    let api2 = build(c, &chain, &c.order2).ok()?;
+    // the first description is documented between its registrations, the second (permuted order) only at the end
+    let api1 = build(c, &chain, &order1, c.eps.len() <= 40).ok()?;
+    let api2 = build(c, &chain, &c.order2, false).ok()?;
     let mut per_version = vec![];
     let mut coq_obs = vec![];
     let mut nops = 0;
